@@ -20,6 +20,7 @@ from ..model import MPoint
 from ..session import Session, default_config, norm_points
 from .c05 import gen_text
 
+REPLAY_BY_RERUN = True  # workloads are deterministic in (tier, seed, shard): replay re-runs the shard
 SHARDS = {"quick": 8, "thorough": 16}
 TIMEOUT = {"quick": 900, "thorough": 3600}
 N_HIST = {"quick": 2, "thorough": 24}  # per configuration per shard (56 configurations)
